@@ -71,6 +71,74 @@ func polarity(p *ir.Path, atom *ir.Term) int {
 			return -1
 		}
 	}
+	// `0 == len(x)` is also decided by any comparison of that length with a small constant: `len(x) < 1`,
+	// `len(x) <= 0`, `!(len(x) > 0)`, `len(x) >= 1` ...
+	if atom.Op == "bin" && atom.Aux == "==" && len(atom.Args) == 2 {
+		var x *ir.Term
+		for i := 0; i < 2; i++ {
+			if z, isZ := atom.Args[i].IntConst(); isZ && z == 0 && nonNegTerm(atom.Args[1-i]) {
+				x = atom.Args[1-i]
+			}
+		}
+		if x != nil {
+			for i := range p.Steps {
+				st := &p.Steps[i]
+				if st.Kind != ir.KBranch || st.Atom.Op != "bin" || len(st.Atom.Args) != 2 {
+					continue
+				}
+				var kc int64
+				var xLeft, found bool
+				for j := 0; j < 2; j++ {
+					if kk, isK := st.Atom.Args[1-j].IntConst(); isK && ir.Same(st.Atom.Args[j], x) && kk >= 0 && kk <= 8 {
+						kc, xLeft, found = kk, j == 0, true
+					}
+				}
+				if !found {
+					continue
+				}
+				holds := func(v int64) (bool, bool) {
+					a, b := v, kc
+					if !xLeft {
+						a, b = kc, v
+					}
+					var r bool
+					switch st.Atom.Aux {
+					case "<":
+						r = a < b
+					case "<=":
+						r = a <= b
+					case ">":
+						r = a > b
+					case ">=":
+						r = a >= b
+					case "==":
+						r = a == b
+					case "!=":
+						r = a != b
+					default:
+						return false, false
+					}
+					return r == st.Pol, true
+				}
+				h0, known := holds(0)
+				if !known {
+					continue
+				}
+				if !h0 {
+					return -1 // the branch taken is impossible for an empty x
+				}
+				onlyZero := true
+				for v := int64(1); v <= kc+2; v++ {
+					if hv, _ := holds(v); hv {
+						onlyZero = false
+					}
+				}
+				if onlyZero {
+					return 1
+				}
+			}
+		}
+	}
 	return 0
 }
 
